@@ -290,6 +290,15 @@ async fn one(ctx: &mut Ctx, case: u64, rng: &mut Rng) {
                         }
                     }
                     i += 1;
+                    // the policy may change between two messages of one exchange: entries of later
+                    // messages are announced with the policy in force when they are applied
+                    if rng.chance(1, 4) {
+                        let p = gen_policy(rng);
+                        let _ = h.set_download_policy(ns, real(&p)).await;
+                        trace.push(format!("  (policy changed between two messages: {p:?})"));
+                        policy = Some(p);
+                        ctx.count("policy_changes_inside_a_session", 1);
+                    }
                     // to us
                     let before = Model::from_entries(act::dump(&h, ns).await.unwrap_or_default());
                     let vals: Vec<(SignedEntry, bool, u8)> = RawMessage::of(&msg)
